@@ -16,6 +16,18 @@ Oracle: oracles.milp_exact (enumeration of the integer box, exact Fraction LP of
 part).  Float tolerances: TAU = 1e-6 * (1 + max|data|) on rows / sign / integrality, the same relative to the terms on
 c.x, and  gap_tol * max(1,|obj|,|OPT|) + TAU  on optimality (instances have integer data and tiny denominators, so a
 wrong answer is off by >= ~1e-2).
+
+Round 2 (same clauses, inputs beyond the small scope; see the section "round 2" below and oracles/milp_certs.py):
+  ladder-blocks         10 .. 600 variables, block-diagonal composition of exactly solved small blocks (optimum = sum)
+  ladder-planted-dual   12 .. 2050 variables, coupled rows, planted integer point with an exact LP-duality certificate
+  long-run-single-row   8 .. 24 variables, exact-weight / knapsack / cover rows: thousands of nodes and > 10 000 simplex
+                        pivots per call, optimum by meet-in-the-middle enumeration
+  history-*             sequences of calls in one process on the SAME c / A / row lists / b / integers / warm-start objects
+                        with in-place edits between the calls (also inside the three families above), each call judged
+                        against the oracle for the model as it is then; the last call repeated in a fresh interpreter
+                        (extra clause  ensures:same-verdict-as-in-a-fresh-process).
+A violation found there is recorded with the whole call sequence; `replay` rebuilds the objects once and re-applies the
+recorded edits in place.   `python -m checks.C04 --fresh` (JSON on stdin) is the fresh-interpreter helper.
 """
 from __future__ import annotations
 
@@ -62,7 +74,7 @@ def subsets(n, with_empty):
 def fam_exh2(quick):
     """n=2, one user row, box rows: exhaustive over the listed value sets."""
     if quick:
-        cs = [(1, 1), (1, -1), (2, 1), (-1, 2)]
+        cs = [(1, 1), (1, -1), (-1, 2)]
         bs = [-2, -1, 1, 2, 4]
         Us = [(1, 1), (2, 3), (3, 3)]
         vals = (-3, -2, -1, 0, 1, 2, 3)
@@ -114,7 +126,7 @@ def fam_fake_binary(quick):
     single non-zero), a genuine x_k <= 1 on the *other* / on a continuous variable; the true bounds are x_j <= U_j,
     U_j in {2,3}.  Every combination of pseudo-row kinds per variable, all three integer subsets."""
     out = []
-    bands = [(1, 3), (2, 3), (1, 2), (3, 2)] if quick else [(1, 3), (2, 3), (1, 2), (3, 2), (1, 1), (3, 1)]
+    bands = [(1, 3), (2, 3), (3, 2)] if quick else [(1, 3), (2, 3), (1, 2), (3, 2), (1, 1), (3, 1)]
     cs = [(1, 1), (2, 1), (-1, 1)] if quick else [(1, 1), (2, 1), (-1, 1), (1, -1), (1, 2)]
     kinds = ("none", "diff", "neg", "true1")
     for (p, q) in bands:
@@ -431,29 +443,36 @@ def _alarm(signum, frame):
     raise _Timeout()
 
 
-def call_solver(inst, minimize, cfg):
-    """-> (kind, payload): ('result', Result) | ('raised', repr) | ('timeout', seconds)."""
+def call_solver(inst, minimize, cfg, share=False, timeout=None, ws_obj=None):
+    """-> (kind, payload): ('result', Result) | ('raised', repr) | ('timeout', seconds).
+    share=False: the solver gets fresh copies of the data (every call is independent of the caller's objects);
+    share=True (history mode): it gets the caller's OWN c / A (and row lists) / b / integers objects, and `ws_obj`
+    (a list owned by the caller) as warm start - exactly what a program that edits one model in place would pass."""
     from solvor.milp import solve_milp
+    timeout = timeout or CASE_TIMEOUT
     kw = dict(minimize=minimize, heuristics=cfg["heuristics"], lns_iterations=cfg["lns_iterations"],
               solution_limit=cfg["solution_limit"], lns_destroy_frac=cfg["lns_destroy_frac"], seed=cfg["seed"])
     if cfg.get("warm_start") is not None:
-        kw["warm_start"] = list(cfg["warm_start"])
+        kw["warm_start"] = ws_obj if (share and ws_obj is not None) else list(cfg["warm_start"])
     for k in ("max_nodes", "gap_tol"):
         if k in cfg:
             kw[k] = cfg[k]
+    if share:
+        args = (inst["c"], inst["A"], inst["b"], inst["integers"])
+    else:
+        args = ([v for v in inst["c"]], [list(r) for r in inst["A"]], list(inst["b"]), list(inst["integers"]))
     old = signal.signal(signal.SIGVTALRM, _alarm)
-    signal.setitimer(signal.ITIMER_VIRTUAL, CASE_TIMEOUT)
+    signal.setitimer(signal.ITIMER_VIRTUAL, timeout)
     try:
         try:
             with warnings.catch_warnings():
                 warnings.simplefilter("ignore")
-                res = solve_milp([v for v in inst["c"]], [list(r) for r in inst["A"]], list(inst["b"]),
-                                 list(inst["integers"]), **kw)
+                res = solve_milp(*args, **kw)
         finally:  # disarm inside the guarded region: a late signal is still caught below
             signal.setitimer(signal.ITIMER_VIRTUAL, 0)
         return "result", res
     except _Timeout:
-        return "timeout", CASE_TIMEOUT
+        return "timeout", timeout
     except Exception as e:  # noqa: BLE001 - a raise is an observation, reported by the caller
         return "raised", f"{type(e).__name__}: {e}"
     finally:
@@ -461,6 +480,8 @@ def call_solver(inst, minimize, cfg):
 
 
 def tau_of(inst):
+    if inst.get("tau"):  # families beyond the small scope (larger integer data): a flat tolerance, see BIG_TAU
+        return inst["tau"]
     mx = max([abs(v) for r in inst["A"] for v in r] + [abs(v) for v in inst["b"]] + [abs(v) for v in inst["c"]] + [1])
     return 1e-6 * (1 + mx)
 
@@ -561,7 +582,9 @@ def case_of(inst, minimize, cfg, fam, base_cfg=None):
 
 
 def budget_exhausted(cfg, res):
-    return "max_nodes" in cfg and res.iterations >= cfg["max_nodes"]
+    """Node budget used up (explicit max_nodes of the open-box family, or the default 100 000 in a long run): what is
+    reported then (FEASIBLE, or INFEASIBLE without incumbent) is outside the property's configurations."""
+    return res.iterations >= cfg.get("max_nodes", 100_000)
 
 
 def invariance(inst, minimize, cfg, got, base_cfg, base):
@@ -703,6 +726,668 @@ def work_chunk(units):
     return [work(u) for u in units]
 
 
+# =============================================================================================== round 2
+# Beyond the small scope.  Three capabilities, none of them tied to a particular defect:
+#   (a) SIZE LADDER: instances with 10 .. 1000+ variables whose verdict is known from a cheap certifying oracle
+#       (block-diagonal composition of exactly solved blocks; planted integer point with an LP-duality certificate);
+#   (b) LONG RUNS: single-row 0/1 and bounded-integer programs (exact weight / knapsack / cover, 14..22 variables) that need
+#       thousands of nodes and well over 10 000 simplex pivots, judged by meet-in-the-middle enumeration;
+#   (c) HISTORY MODE: sequences of calls in ONE process on the SAME argument objects (c, A and its row lists, b, integers,
+#       the warm-start list) with in-place edits between the calls; every call is judged against the oracle for the
+#       model as it is at that call, and the last call is compared with a fresh process.
+# All of them reuse `contract` (the clauses of the property statement) unchanged.
+BIG_TAU = 2e-6      # flat float tolerance for (a)/(b): integer data up to 999, so a wrong row / value is off by >= 1e-2
+BIG_TIMEOUT = {True: 150, False: 1200}  # CPU seconds per call (quick / thorough); a time-out is recorded, never judged
+SIZES_QUICK = (10, 11, 12, 33, 65, 129, 140)
+SIZES_THOROUGH = (10, 11, 12, 16, 17, 31, 33, 64, 65, 100, 128, 129, 130, 140, 200, 256, 260)
+
+
+def _single_block(rng, binary):
+    """One-variable filler block (LP optimum integral)."""
+    u = 1 if binary else rng.randint(1, 3)
+    return make_inst([rng.randint(-3, 4)], [], [], [u], [0])
+
+
+def _is_all_binary(inst):
+    from oracles.milp_exact import explicit_bounds
+    ub = explicit_bounds(inst["A"], inst["b"], len(inst["c"]))
+    return all(ub[j] == 1 for j in inst["integers"])
+
+
+def _draw_block(rng, flavour):
+    if flavour == "binary":
+        for _ in range(20):
+            inst = gen_binary(rng)
+            if _is_all_binary(inst):
+                return inst
+        return _single_block(rng, True)
+    if flavour == "fake-binary":
+        return gen_fake_binary(rng)
+    return rng.choice((gen_general, gen_general, gen_binary, gen_fake_binary))(rng)
+
+
+def _block_verdict(inst, mn):
+    """('optimal', value, x, fractional?) | ('infeasible', relaxation status) | None (not usable)."""
+    from oracles.milp_exact import solve as exact
+    o = exact(inst["c"], inst["A"], inst["b"], inst["integers"])
+    if not o["complete"]:
+        return None
+    d, rl = o["dir"][mn], o["relax"][mn]
+    if d["status"] == "optimal" and rl["status"] == "optimal":
+        return ("optimal", d["value"], d["x"], rl["objective"] != d["value"])
+    if d["status"] == "infeasible" and rl["status"] in ("optimal", "infeasible"):
+        return ("infeasible", rl["status"])
+    return None
+
+
+def _expected_of_blocks(verdicts, offs, perm, n):
+    from oracles.milp_certs import place
+    bad = [v for v in verdicts if v[0] == "infeasible"]
+    if bad:
+        return {"status": "infeasible", "relax": "infeasible" if any(v[1] == "infeasible" for v in bad) else "optimal"}
+    return {"status": "optimal", "relax": "optimal", "value": sum((v[1] for v in verdicts), Fraction(0)),
+            "x": place([v[2] for v in verdicts], offs, perm, n)}
+
+
+def gen_block_ladder(rng, N, F, mn, flavour, want, shuffle):
+    """Block-diagonal instance with exactly N variables: F blocks with an integrality gap (LP optimum != MILP optimum in
+    direction mn), the rest with LP optimum == MILP optimum; want='infeasible' adds one block without integer point."""
+    from oracles.milp_certs import compose
+    blocks, verdicts = [], []
+    n = nf = 0
+    need_bad = 1 if want == "infeasible" else 0
+    stale = 0
+    while n < N:
+        stale += 1
+        inst = _draw_block(rng, flavour) if stale < 60 else _single_block(rng, flavour == "binary")
+        k = len(inst["c"])
+        if n + k > N:
+            continue
+        v = _block_verdict(inst, mn)
+        if v is None:
+            continue
+        if v[0] == "infeasible":
+            if not need_bad:
+                continue
+            need_bad -= 1
+        elif v[3]:
+            if nf >= F:
+                continue
+            nf += 1
+        elif nf < F and n + k > N - 3 * (F - nf) and stale < 40:
+            continue  # keep room for the blocks with a gap that are still wanted
+        blocks.append(inst); verdicts.append(v)
+        n += k
+        stale = 0
+    order = list(range(len(blocks)))
+    rng.shuffle(order)
+    blocks, verdicts = [blocks[i] for i in order], [verdicts[i] for i in order]
+    perm = prow = None
+    if shuffle:
+        perm = list(range(N)); rng.shuffle(perm)
+        prow = list(range(sum(len(bl["b"]) for bl in blocks))); rng.shuffle(prow)
+    c, rows, b, ints, offs = compose(blocks, perm, prow)
+    return {"c": c, "rows": rows, "b": b, "integers": ints, "minimize": mn,
+            "expected": _expected_of_blocks(verdicts, offs, perm, N),
+            "nontrivial": nf > 0 or any(v[0] == "infeasible" and v[1] == "optimal" for v in verdicts),
+            "meta": {"n": N, "rows": len(b), "blocks": len(blocks), "blocks_with_gap": nf, "flavour": flavour, "want": want,
+                     "shuffled": bool(shuffle)},
+            "_blocks": blocks, "_verdicts": verdicts, "_offs": offs, "_perm": perm, "_prow": prow}
+
+
+def edit_block_in_place(rng, g, A, b):
+    """History step on a composed instance: change one coefficient or one right-hand side of one block IN PLACE in the
+    dense matrix the solver was given before; only that block's exact verdict is recomputed.  -> (ops, expected) | None"""
+    blocks, verdicts = g["_blocks"], g["_verdicts"]
+    N = len(g["c"])
+    perm = g["_perm"] or list(range(N))
+    rowstart, r0 = [], 0
+    for bl in blocks:
+        rowstart.append(r0); r0 += len(bl["b"])
+    pos = {old: k for k, old in enumerate(g["_prow"])} if g["_prow"] else None
+    for _ in range(40):
+        t = rng.randrange(len(blocks))
+        bl = blocks[t]
+        k = len(bl["c"])
+        i = rng.randrange(len(bl["b"]))
+        new = {"c": bl["c"], "A": [list(r) for r in bl["A"]], "b": list(bl["b"]), "integers": bl["integers"]}
+        if rng.random() < 0.75:
+            j = rng.randrange(k)
+            val = rng.choice([v for v in (-3, -2, -1, 0, 1, 2, 3) if v != bl["A"][i][j]])
+            new["A"][i][j] = val
+            gi = rowstart[t] + i
+            op = ["setA", pos[gi] if pos else gi, perm[g["_offs"][t] + j], val]
+        else:
+            val = bl["b"][i] + rng.choice((-2, -1, 1, 2))
+            new["b"][i] = val
+            gi = rowstart[t] + i
+            op = ["setb", pos[gi] if pos else gi, val]
+        v = _block_verdict(new, g["minimize"])
+        if v is None:
+            continue
+        apply_op(op, {"A": A, "b": b})
+        blocks[t], verdicts[t] = new, v
+        return [op], _expected_of_blocks(verdicts, g["_offs"], g["_perm"], N)
+    return None
+
+
+def gen_planted_dual(rng, N, mn, tie, wide=False, xpos=0.3):
+    """Coupled sparse rows (2..5 non-zeros in -3..3), an integer point x* planted, right-hand sides b = A x* + slack,
+    multipliers y on the tight rows and reduced costs r on the columns with x*_j = 0 chosen at random (zero with probability
+    `tie`: degenerate / tied optima), objective w = r - A^T y: x* is optimal by LP duality (oracles.milp_certs).
+    Bounded by explicit rows x_j <= U_j (N + N/2..N rows), or - wide=True, for 500..1000+ variables - by one row with
+    positive coefficients per group of 6..12 variables (N/9 + N/15 rows: few rows, many columns)."""
+    from oracles.milp_certs import check_dual_certificate
+    U = [rng.randint(1, 3) for _ in range(N)]
+    if wide:
+        x = [rng.choice((1, 1, 2, 3)) if rng.random() < xpos else 0 for _ in range(N)]  # xpos: share of positive entries
+    else:
+        x = [rng.choice((0, 0, u, rng.randint(0, u))) for u in U]
+    rows, b, y = [], [], []
+    for _ in range(max(2, N // 15 if wide else rng.randint(N // 2, N))):
+        cols = rng.sample(range(N), min(N, rng.randint(2, 5)))
+        row = sorted([j, rng.choice((-3, -2, -1, 1, 2, 3))] for j in cols)
+        slack = 0 if rng.random() < 0.6 else rng.randint(1, 3)
+        rows.append(row); b.append(sum(v * x[j] for j, v in row) + slack)
+        y.append(0 if slack or rng.random() < tie else rng.randint(1, 3))
+    if wide:
+        box, j = [], 0
+        order = list(range(N)); rng.shuffle(order)
+        while j < N:
+            grp = sorted(order[j:j + rng.randint(6, 12)])
+            j += len(grp)
+            row = [[q, rng.randint(1, 3)] for q in grp]
+            slack = 0 if rng.random() < 0.5 else rng.randint(1, 4)
+            box.append((row, sum(v * x[q] for q, v in row) + slack, 0 if slack or rng.random() < tie else rng.randint(1, 3)))
+    else:
+        box = [([[j, 1]], U[j], 0 if U[j] > x[j] or rng.random() < tie else rng.randint(1, 3)) for j in range(N)]
+    if rng.random() < 0.5:
+        rows, b, y = [t[0] for t in box] + rows, [t[1] for t in box] + b, [t[2] for t in box] + y
+    else:
+        rows, b, y = rows + [t[0] for t in box], b + [t[1] for t in box], y + [t[2] for t in box]
+    w = [0 if x[j] or rng.random() < tie else rng.randint(1, 3) for j in range(N)]
+    for i, row in enumerate(rows):
+        for j, v in row:
+            w[j] -= v * y[i]
+    val = check_dual_certificate(w, rows, b, x, y)
+    ints = list(range(N)) if rng.random() < 0.5 else sorted(j for j in range(N) if rng.random() < 0.6) or [0]
+    return {"c": w if mn else [-v for v in w], "rows": rows, "b": b, "integers": ints, "minimize": mn,
+            "expected": {"status": "optimal", "relax": "optimal", "value": val if mn else -val, "x": [Fraction(v) for v in x]},
+            "nontrivial": False,  # LP optimum == MILP optimum by construction: these runs are counted, not as non-trivial
+            "meta": {"n": N, "rows": len(b), "tie": tie, "wide": wide, "positive_entries_of_x*": sum(1 for v in x if v),
+                     "certificate": "LP duality (y, reduced costs) verified exactly"}}
+
+
+ROW_FLAVOURS = ("exact-weight", "exact-weight", "exact-weight-bounded", "knapsack-correlated", "knapsack-ties", "cover")
+
+
+def gen_single_row(rng, n, flavour):
+    """One weight row over n bounded integer variables (+ box rows): equality (two rows), <= or >=; exact optimum by
+    meet-in-the-middle enumeration.  Integer data: costs 1..9 / weights 100..999 (exact-weight), weights 20..99 with cost
+    = weight + 10 (correlated), weights and capacity multiples of one base with cost = k * weight (ties everywhere)."""
+    U = [1] * n
+    if flavour in ("exact-weight", "exact-weight-bounded"):
+        if flavour == "exact-weight-bounded":
+            U = [rng.randint(1, 2) for _ in range(n)]
+        c = [rng.randint(1, 9) for _ in range(n)]
+        w = [rng.randint(100, 999) for _ in range(n)]
+        T = sum(wj * rng.randint(0, u) for wj, u in zip(w, U)) or w[0]
+        kind, mn = "eq", rng.random() < 0.5
+    elif flavour == "knapsack-correlated":
+        w = [rng.randint(20, 99) for _ in range(n)]
+        c = [wj + 10 for wj in w]
+        T = sum(w) // 2 + rng.randint(-20, 20)
+        kind, mn = "le", False
+    elif flavour == "knapsack-ties":
+        base = rng.choice((5, 10, 12))
+        w = [base * rng.randint(2, 9) for _ in range(n)]
+        k = rng.randint(1, 3)
+        c = [k * wj for wj in w]
+        T = base * rng.randint(sum(w) // (3 * base), sum(w) // (2 * base)) + rng.choice((0, 0, 1, base - 1))
+        kind, mn = rng.choice(("le", "eq")), False
+    else:  # cover
+        w = [rng.randint(20, 99) for _ in range(n)]
+        c = [wj + rng.randint(-5, 15) for wj in w]
+        T = sum(w) // 2 + rng.randint(-20, 20)
+        kind, mn = "ge", True
+    return _single_row_instance(c, w, U, T, kind, mn, flavour)
+
+
+def _single_row_instance(c, w, U, T, kind, mn, flavour):
+    from oracles.milp_certs import mitm_row
+    n = len(c)
+    rows, b = [], []
+    if kind in ("eq", "le"):
+        rows.append([[j, w[j]] for j in range(n) if w[j]]); b.append(T)
+    if kind in ("eq", "ge"):
+        rows.append([[j, -w[j]] for j in range(n) if w[j]]); b.append(-T)
+    for j in range(n):
+        rows.append([[j, 1]]); b.append(U[j])
+    r = mitm_row(c, w, U, T, kind, mn)
+    exp = {"status": "infeasible", "relax": None} if r is None else \
+        {"status": "optimal", "relax": "optimal", "value": Fraction(r[0]), "x": [Fraction(v) for v in r[1]]}
+    return {"c": list(c), "rows": rows, "b": b, "integers": list(range(n)), "minimize": mn, "expected": exp,
+            "nontrivial": None,  # decided by the exact LP relaxation in the worker
+            "meta": {"n": n, "rows": len(b), "flavour": flavour, "kind": kind, "T": T},
+            "_row": (list(c), list(w), list(U), T, kind)}
+
+
+def edit_weight_in_place(rng, g, A, b):
+    """History step on a single-row instance: one weight changed in place (both rows of an equality)."""
+    c, w, U, T, kind = g["_row"]
+    j = rng.randrange(len(w))
+    w = list(w)
+    w[j] = max(1, w[j] + rng.choice((-7, -3, -1, 1, 2, 5, 11)))
+    ops, i = [], 0
+    if kind in ("eq", "le"):
+        ops.append(["setA", i, j, w[j]]); i += 1
+    if kind in ("eq", "ge"):
+        ops.append(["setA", i, j, -w[j]])
+    for op in ops:
+        apply_op(op, {"A": A, "b": b})
+    g2 = _single_row_instance(c, w, U, T, kind, g["minimize"], g["meta"]["flavour"])
+    g["_row"] = g2["_row"]
+    return ops, g2["expected"]
+
+
+# ---------------------------------------------------------------------------------------- in-place edit operations
+def apply_op(op, S):
+    """Apply one recorded edit IN PLACE to the live objects S = {c, A, b, integers, minimize} (replay uses the same code)."""
+    k = op[0]
+    if k == "setA":
+        S["A"][op[1]][op[2]] = op[3]
+    elif k == "setb":
+        S["b"][op[1]] = op[2]
+    elif k == "setc":
+        S["c"][op[1]] = op[2]
+    elif k == "append_row":
+        S["A"].append(list(op[1])); S["b"].append(op[2])
+    elif k == "pop_row":
+        S["A"].pop(); S["b"].pop()
+    elif k == "scale_row":
+        row = S["A"][op[1]]
+        for j in range(len(row)):
+            row[j] *= op[2]
+        S["b"][op[1]] *= op[2]
+    elif k == "replace_row":
+        S["A"][op[1]] = list(op[2])
+    elif k == "flip":
+        S["minimize"] = not S["minimize"]
+    elif k == "ints_add":
+        S["integers"].append(op[1]); S["integers"].sort()
+    elif k == "ints_remove":
+        S["integers"].remove(op[1])
+    elif k == "swap_cols":
+        j, t = op[1], op[2]
+        for row in S["A"]:
+            row[j], row[t] = row[t], row[j]
+        S["c"][j], S["c"][t] = S["c"][t], S["c"][j]
+        S["integers"][:] = sorted({t if q == j else j if q == t else q for q in S["integers"]})
+    elif k != "none":
+        raise ValueError(f"unknown edit {op}")
+
+
+def pick_op(rng, S, box):
+    """A random edit of the live model; `box` = indices of the explicit bound rows, which stay bounds (so that the exact
+    oracle keeps a complete box).  -> op (not yet applied)."""
+    n, m = len(S["c"]), len(S["b"])
+    user = [i for i in range(m) if i not in box]
+    for _ in range(30):
+        t = rng.random()
+        if t < 0.36 and user:
+            i, j = rng.choice(user), rng.randrange(n)
+            return ["setA", i, j, rng.choice([v for v in (-3, -2, -1, 0, 1, 2, 3) if v != S["A"][i][j]])]
+        if t < 0.46:
+            i = rng.randrange(m)
+            if i in box:
+                a = max(v for v in S["A"][i])
+                return ["setb", i, a * rng.randint(1, 3) + rng.randrange(a)]
+            return ["setb", i, S["b"][i] + rng.choice((-2, -1, 1, 2))]
+        if t < 0.56:
+            j = rng.randrange(n)
+            return ["setc", j, rng.choice([v for v in (-3, -2, -1, 0, 1, 2, 3) if v != S["c"][j]])]
+        if t < 0.66:
+            return ["none"]
+        if t < 0.72:
+            return ["flip"]
+        if t < 0.80 and len(user) < 5:
+            return ["append_row", [rng.randint(-3, 3) for _ in range(n)], rng.randint(-3, 6)]
+        if t < 0.84 and m - 1 not in box and len(user) > 1:
+            return ["pop_row"]
+        if t < 0.89:
+            i = rng.randrange(m)
+            if max(abs(v) for v in S["A"][i] + [S["b"][i]]) <= 6:
+                return ["scale_row", i, rng.choice((2, 3))]
+        if t < 0.94 and user:
+            i = rng.choice(user)
+            return ["replace_row", i, [rng.randint(-3, 3) for _ in range(n)]]
+        if t < 0.98:
+            j = rng.randrange(n)
+            if j in S["integers"]:
+                if len(S["integers"]) > 1:
+                    return ["ints_remove", j]
+            else:
+                return ["ints_add", j]
+        if n >= 2:
+            j, q = rng.sample(range(n), 2)
+            return ["swap_cols", j, q]
+    return ["none"]
+
+
+def _snap(S):
+    return {"c": list(S["c"]), "A": [list(r) for r in S["A"]], "b": list(S["b"]), "integers": list(S["integers"])}
+
+
+def _fresh_process(snapshot, mn, cfg):
+    """The same call in a brand-new interpreter (python -m checks.C04 --fresh): nothing of this process' history."""
+    import os
+    import subprocess
+    import sys
+    here = os.path.dirname(os.path.dirname(os.path.abspath(__file__)))
+    p = subprocess.run([sys.executable, "-m", "checks.C04", "--fresh"], cwd=here, capture_output=True, text=True,
+                       input=json.dumps({"inst": snapshot, "minimize": mn, "cfg": cfg}))
+    try:
+        return json.loads(p.stdout.strip().splitlines()[-1])
+    except Exception:  # noqa: BLE001
+        return {"kind": "fresh-process-failed", "what": (p.stderr or p.stdout)[-300:]}
+
+
+def _fresh_main():
+    import sys
+    q = json.loads(sys.stdin.read())
+    use_repo()
+    kind, res = call_solver(q["inst"], q["minimize"], q["cfg"])
+    if kind != "result":
+        print(json.dumps({"kind": kind, "what": str(res)}))
+        return
+    x = res.solution
+    cx = None
+    if x is not None and len(x) == len(q["inst"]["c"]):
+        cx = sum(cj * float(v) for cj, v in zip(q["inst"]["c"], x))
+    print(json.dumps({"kind": "result", "status": getattr(res.status, "name", str(res.status)), "cx": cx,
+                      "solution": None if x is None else [float(v) for v in x]}))
+
+
+def compare_with_fresh(inst, cfg, got, fresh):
+    """got = (kind, status, cx, budget) of the call made after a history; fresh = dict from a new process."""
+    if cfg["solution_limit"] != 1 or got[3]:
+        return None
+    if got[0] != "result" or fresh.get("kind") != "result":
+        if (got[0] == "result") != (fresh.get("kind") == "result"):
+            return f"after the history: {got[:2]}; the same call in a fresh process: {fresh}"
+        return None
+    if got[1] != fresh["status"]:
+        return f"status {got[1]} after the history, {fresh['status']} for the same call in a fresh process"
+    if got[1] == "OPTIMAL" and got[2] is not None and fresh.get("cx") is not None:
+        g = cfg.get("gap_tol", 1e-6)
+        if abs(got[2] - fresh["cx"]) > g * max(1.0, abs(got[2]), abs(fresh["cx"])) + 10 * tau_of(inst) * (1 + abs(got[2])):
+            return f"OPTIMAL objective {got[2]} after the history, {fresh['cx']} for the same call in a fresh process"
+    return None
+
+
+def _new_out(fam):
+    out = {"n": 0, "keys": [], "viol": [], "stat": {}, "sample": None, "noverdict": []}
+    out["stat"]["family:" + fam] = 1
+    return out
+
+
+def _bump(out, k, by=1):
+    out["stat"][k] = out["stat"].get(k, 0) + by
+
+
+def _relax_nontrivial(snapshot, mn, orc):
+    d, rl = orc["dir"][mn], orc["relax"][mn]
+    return (d["status"] == "infeasible" and rl["status"] != "infeasible") or \
+        (d["status"] == "optimal" and rl["status"] == "optimal" and rl["objective"] != d["value"]) or \
+        (d["status"] == "optimal" and rl["status"] == "unbounded")
+
+
+# ---------------------------------------------------------------------------------------- history mode, small scope
+def work_history(unit):
+    """One sequence of calls on the SAME objects with in-place edits in between (exact oracle per call)."""
+    fam, length, seed, fresh = unit
+    use_repo()
+    _hook_reach()
+    from oracles.milp_exact import solve as exact
+    rng = random.Random(seed)
+    t0 = time.process_time()
+    out = _new_out(fam)
+    gen = {"history-general": gen_general, "history-binary": gen_binary, "history-fake-binary": gen_fake_binary}[fam]
+    inst = gen(rng)
+    S = {"c": inst["c"], "A": inst["A"], "b": inst["b"], "integers": inst["integers"], "minimize": rng.random() < 0.5}
+    box = set()  # every row that is a bound a*x_j <= r (a > 0) stays one: the exact oracle's box stays complete
+    for i, row in enumerate(S["A"]):
+        nz = [j for j, v in enumerate(row) if v]
+        if len(nz) == 1 and row[nz[0]] > 0:
+            box.add(i)
+    ws_obj = []
+    steps = []
+    cache = {}
+    last = None
+    for k in range(length):
+        ops = []
+        if k:
+            for _ in range(1 if rng.random() < 0.8 else 2):
+                op = pick_op(rng, S, box)
+                apply_op(op, S)
+                ops.append(op)
+        snap = _snap(S)
+        mn = S["minimize"]
+        key = digest(snap)
+        if key not in cache:
+            cache[key] = exact(snap["c"], snap["A"], snap["b"], snap["integers"])
+        orc = cache[key]
+        if not orc["complete"]:  # cannot happen while the bound rows are protected; do not judge if it does
+            _bump(out, "history:oracle-box-incomplete")
+        wss = warm_starts(snap, orc, mn, rng)
+        w = rng.choice(wss) if rng.random() < 0.5 else wss[0]
+        cfg = mk_cfg(w, rng.choice(OPTS), snap)
+        if w[1] is not None:
+            ws_obj[:] = w[1]  # the caller's warm-start list is reused and overwritten in place as well
+        steps.append({"ops": ops, "state": dict(snap, minimize=mn), "cfg": cfg})
+        kind, res = call_solver(S, mn, cfg, share=True, ws_obj=ws_obj)
+        out["n"] += 1
+        _bump(out, "history:calls")
+        for op in ops:
+            _bump(out, "history:edit:" + op[0])
+        if _snap(S) != snap:
+            _bump(out, "history:solver-changed-its-arguments")
+        nontrivial = _relax_nontrivial(snap, mn, orc)
+        if kind == "result":
+            viols, st, cx = contract(snap, mn, cfg, res, orc)
+            got = ("result", st, cx, False)
+            _bump(out, "status:" + st)
+            for ob, det in viols:
+                out["viol"].append((ob, {"family": fam, "history": [dict(s) for s in steps], "failing_call": k},
+                                    f"call {k + 1} of a sequence on the same objects (edits before it: {ops}): " + det))
+        else:
+            got = (kind, res, None, False)
+            _bump(out, "no-verdict:" + kind)
+        last = (snap, mn, cfg, got)
+        if nontrivial:
+            out["keys"].append(int(digest(["history", fam, seed, k])[:15], 16))
+        if out["viol"]:
+            break  # later calls of a sequence that already failed add nothing
+    if fresh and last is not None and not out["viol"]:
+        snap, mn, cfg, got = last
+        fr = _fresh_process(snap, mn, cfg)
+        out["n"] += 1
+        _bump(out, "history:last-call-repeated-in-a-fresh-process")
+        if fr.get("kind") == "fresh-process-failed":
+            _bump(out, "history:fresh-process-failed")
+            out["noverdict"].append({"case": {"family": fam, "history": steps}, "what": str(fr)})
+        else:
+            msg = compare_with_fresh(snap, cfg, got, fr)
+            if msg:
+                out["viol"].append((P + "ensures:same-verdict-as-in-a-fresh-process",
+                                    {"family": fam, "history": [dict(s) for s in steps], "failing_call": len(steps) - 1,
+                                     "compare_with_fresh_process": True}, msg))
+    for k_, n_ in _REACH.items():
+        _bump(out, "reached:" + k_, n_)
+    _REACH.clear()
+    _bump(out, "cpu_ms:" + fam, int(1000 * (time.process_time() - t0)))
+    return out
+
+
+# ---------------------------------------------------------------------------------------- ladder / long runs
+def _orc_of(expected, mn):
+    d = {"status": expected["status"], "value": expected.get("value"), "x": expected.get("x")}
+    return {"complete": True, "dir": {mn: d},
+            "relax": {mn: {"status": expected.get("relax") or "optimal", "objective": None, "x": None}}}
+
+
+def _expected_json(e):
+    return {"status": e["status"], "relax": e.get("relax"), "value": None if e.get("value") is None else str(e["value"]),
+            "x": None if e.get("x") is None else [str(v) for v in e["x"]]}
+
+
+def big_cfgs(g, rng, k):
+    """Plain first; heuristics + LNS; the certified optimum as warm start; an infeasible warm start; solution_limit 3;
+    a second LNS setting - the first k of them."""
+    e = g["expected"]
+    n = len(g["c"])
+    out = [(("none", None), BASE_OPT), (("none", None), OPTS[2])]
+    if e["status"] == "optimal":
+        xo = fl(e["x"])
+        bad = list(xo)
+        j = rng.randrange(n)
+        bad[j] += 4.0  # beyond every box of the generators
+        out += [(("feasible-optimal", xo), OPTS[1]), (("infeasible-row-better", bad), OPTS[2]),
+                (("none", None), OPTS[6]), (("feasible-optimal", xo), OPTS[3])]
+    else:
+        out += [(("infeasible-zeros", [0.0] * n), OPTS[2]), (("infeasible-ones", [1.0] * n), BASE_OPT),
+                (("none", None), OPTS[6]), (("wrong-length-short", [0.0] * (n - 1)), OPTS[3])]
+    sel = out[:k] if isinstance(k, int) else [out[i] for i in k]
+    return [mk_cfg(w, o, {}) for (w, o) in sel]
+
+
+def build_big(kind, params, rng):
+    if kind == "ladder-blocks":
+        return gen_block_ladder(rng, params["n"], params["gap_blocks"], params["minimize"], params["flavour"],
+                                params["want"], params["shuffle"])
+    if kind == "ladder-planted-dual":
+        return gen_planted_dual(rng, params["n"], params["minimize"], params["tie"], params.get("wide", False),
+                                params.get("xpos", 0.3))
+    if kind == "long-run-single-row":
+        return gen_single_row(rng, params["n"], params["flavour"])
+    raise ValueError(kind)
+
+
+def work_big(unit):
+    """One instance beyond the small scope: generate (deterministic from the seed), certify, call solve_milp with several
+    configurations on the SAME objects, then (history) edit the model in place and call again."""
+    kind, params, seed, quick = unit
+    use_repo()
+    _hook_reach()
+    from oracles.milp_certs import sparse_feasible, to_dense
+    rng = random.Random(seed)
+    t0 = time.process_time()
+    out = _new_out(kind)
+    g = build_big(kind, params, rng)
+    n, mn = len(g["c"]), g["minimize"]
+    e = g["expected"]
+    if e["status"] == "optimal":  # the witness is re-verified exactly against the rows the solver is going to see
+        if not sparse_feasible(e["x"], g["rows"], g["b"], g["integers"]) or \
+                sum(Fraction(cj) * xj for cj, xj in zip(g["c"], e["x"])) != e["value"]:
+            raise AssertionError(f"C04 {kind}: certified witness does not check out ({params}, seed {seed})")
+    if g["nontrivial"] is None:
+        if e["status"] == "optimal" and n <= 24:
+            from oracles import lp_exact
+            rl = lp_exact.solve(g["c"], to_dense(g["rows"], n), g["b"], mn)
+            g["nontrivial"] = rl["status"] == "optimal" and rl["objective"] != e["value"]
+        else:
+            g["nontrivial"] = False
+    S = {"c": list(g["c"]), "A": to_dense(g["rows"], n), "b": list(g["b"]), "integers": list(g["integers"]), "tau": BIG_TAU}
+    ws_obj = []
+    steps = []
+    base = base_cfg = None
+    base_idx = 0
+    plan = [("cfg", cf) for cf in big_cfgs(g, rng, params["ncfg"])]
+    if params.get("history"):
+        plan += [("edit", None), ("cfg", mk_cfg(("none", None), OPTS[2], {})), ("edit", None)]
+    pending_ops = []
+    first = True
+    for what, cfg in plan:
+        if what == "edit":
+            r = (edit_block_in_place if kind == "ladder-blocks" else edit_weight_in_place)(rng, g, S["A"], S["b"]) \
+                if kind != "ladder-planted-dual" else None
+            if r is None:
+                break
+            pending_ops, e = r[0], r[1]
+            g["expected"] = e
+            if e["status"] == "optimal":
+                from oracles.milp_certs import to_sparse
+                if not sparse_feasible(e["x"], to_sparse(S["A"]), S["b"], S["integers"]):
+                    raise AssertionError(f"C04 {kind}: witness after the in-place edit does not check out (seed {seed})")
+            cfg = mk_cfg(("none", None), BASE_OPT, {})
+            base = None  # a new model: verdict invariance starts again from this plain run
+        orc = _orc_of(e, mn)
+        step = {"ops": pending_ops, "cfg": cfg}
+        if first or pending_ops:
+            from oracles.milp_certs import to_sparse
+            step["state"] = {"n": n, "c": list(S["c"]), "rows": to_sparse(S["A"]), "b": list(S["b"]),
+                             "integers": list(S["integers"]), "minimize": mn, "tau": BIG_TAU,
+                             "expected": _expected_json(e), "certificate": g["meta"]}
+        steps.append(step)
+        if cfg.get("warm_start") is not None:
+            ws_obj[:] = cfg["warm_start"]
+        kind_, res = call_solver(S, mn, cfg, share=True, ws_obj=ws_obj, timeout=BIG_TIMEOUT[bool(quick)])
+        out["n"] += 1
+        _bump(out, f"{kind}:calls")
+        if pending_ops:
+            _bump(out, f"{kind}:calls-after-in-place-edit")
+        if kind_ == "result":
+            viols, st, cx = contract(S, mn, cfg, res, orc)
+            got = ("result", st, cx, False)
+            _bump(out, "status:" + st)
+            _bump(out, f"{kind}:nodes", int(res.iterations))
+            _bump(out, f"{kind}:simplex-pivots", int(res.evaluations))
+            if res.evaluations > 10000:
+                _bump(out, f"{kind}:calls-with-more-than-10000-pivots")
+            if res.iterations > 1000:
+                _bump(out, f"{kind}:calls-with-more-than-1000-nodes")
+            for ob, det in viols:
+                out["viol"].append((ob, {"family": kind, "params": params, "gen_seed": seed, "history": [dict(s) for s in steps],
+                                         "failing_call": len(steps) - 1},
+                                    f"{kind} n={n} ({g['meta']}), call {len(steps)} on the same objects"
+                                    + (f" after in-place edit {pending_ops}" if pending_ops else "") + ": " + det))
+        else:
+            got = (kind_, res, None, False)
+            _bump(out, "no-verdict:" + kind_)
+            if len(out["noverdict"]) < 2:
+                out["noverdict"].append({"case": {"family": kind, "params": params, "gen_seed": seed, "cfg": cfg},
+                                         "what": f"{kind_}: {res}"})
+        if base is None:
+            base, base_cfg, base_idx = got, cfg, len(steps) - 1
+        elif cfg["solution_limit"] == 1 and got[0] == "result" and base[0] == "result":
+            msg = invariance(S, mn, cfg, got, base_cfg, base)
+            if msg:
+                out["viol"].append((P + "ensures:verdict-invariant",
+                                    {"family": kind, "params": params, "gen_seed": seed, "history": [dict(s) for s in steps],
+                                     "failing_call": len(steps) - 1, "baseline_call": base_idx}, f"{kind} n={n}: " + msg))
+        if g["nontrivial"]:
+            out["keys"].append(int(digest([kind, params, seed, len(steps)])[:15], 16))
+        pending_ops = []
+        first = False
+        if out["viol"]:
+            break
+    _bump(out, f"size:{kind}:n={n}")
+    for k_, n_ in _REACH.items():
+        _bump(out, "reached:" + k_, n_)
+    _REACH.clear()
+    _bump(out, "cpu_ms:" + kind, int(1000 * (time.process_time() - t0)))
+    return out
+
+
+def work_item(item):
+    tag, payload = item
+    if tag == "big":
+        return [work_big(payload)]
+    if tag == "history":
+        return [work_history(u) for u in payload]
+    return [work(u) for u in payload]
+
+
 # =============================================================================================== driver
 def build_units(ctx: Ctx):
     rng = random.Random(ctx.seed)
@@ -735,7 +1420,7 @@ def build_units(ctx: Ctx):
     ctx.scope("fake-binary", instances=k, configurations=cfg_note, **dfb)
     for name, gen, nq, nt, plan in (
         ("random-general", gen_general, 1500, 40000, ("cover", 10)),
-        ("random-binary", gen_binary, 1200, 30000, ("cover", 10)),
+        ("random-binary", gen_binary, 900, 30000, ("cover", 10)),
         ("random-fake-binary", gen_fake_binary, 600, 12000, ("cover", 8)),
         ("random-open-box", gen_open, 500, 8000, ("cover", 6)),
         ("random-general-full-config-product", gen_general, 150, 3000, ("full",)),
@@ -749,23 +1434,129 @@ def build_units(ctx: Ctx):
     return units
 
 
+def build_round2(ctx: Ctx):
+    """-> (big units [(kind, params, seed, quick)], history units [(fam, length, seed, fresh)])."""
+    rng = random.Random(ctx.seed + 2)
+    q = ctx.quick
+    big, hist = [], []
+
+    def add(kind, **params):
+        big.append((kind, params, rng.randrange(1 << 30), q))
+
+    # ---- size ladder 1: block-diagonal
+    for N in (SIZES_QUICK if q else SIZES_THOROUGH):
+        F = 3 if N <= 12 or (q and N >= 100) else 4 if N <= 33 else 5
+        cfgs = 6 if N <= 65 else [0, 2] if q else 3
+        combos = [(True, "general", "optimal"), (False, "binary", "optimal"), (rng.random() < 0.5, "fake-binary", "optimal"),
+                  (rng.random() < 0.5, "general", "infeasible")]
+        if not q:
+            combos += [(False, "general", "optimal"), (True, "binary", "optimal"), (rng.random() < 0.5, "binary", "infeasible"),
+                       (rng.random() < 0.5, "general", "optimal")][:12 if N <= 65 else 2] * (3 if N <= 65 else 1)
+        for t, (mn, fl_, want) in enumerate(combos):
+            add("ladder-blocks", n=N, gap_blocks=F if want == "optimal" else 2, minimize=mn, flavour=fl_, want=want,
+                shuffle=t % 2 == 1, ncfg=[0, 1, 2] if (cfgs == [0, 2] and fl_ == "binary") else cfgs,
+                history=N <= 65 or (t == 0 and not q))
+    for N, reps, F, cfgs in (((260, 1, 3, [0, 2]),) if q else ((520, 4, 3, [0, 2]), (600, 1, 3, [0, 2]))):
+        for t in range(reps):
+            add("ladder-blocks", n=N, gap_blocks=F, minimize=t % 2 == 0, flavour=("general", "binary")[t % 2] if t < 2 else "general",
+                want="optimal", shuffle=t % 2 == 1, ncfg=cfgs, history=False)
+    ctx.scope("ladder-blocks", instances=sum(1 for u in big if u[0] == "ladder-blocks"),
+              sizes_n=sorted({u[1]["n"] for u in big if u[0] == "ladder-blocks"}),
+              what=gen_block_ladder.__doc__ + " Blocks are small-scope instances (random-general / random-binary / "
+              "random-fake-binary generators) solved by oracles.milp_exact; optimum = sum of block optima, witness = "
+              "concatenation (re-verified exactly); half of the instances with columns and rows shuffled. 1..6 "
+              "configurations per instance on the same objects (plain, heuristics+LNS, certified optimum / infeasible "
+              "point as warm start, solution_limit 3); where history=true two in-place edits of one block follow, each "
+              "with a new certified optimum.",
+              flavours=["general", "binary (all x_j <= 1 rows)", "fake-binary", "one block without integer point"],
+              blocks_with_integrality_gap="3..5 per instance (the tree grows like 2^that)",
+              oracle="oracles.milp_certs.compose + oracles.milp_exact per block", seeded=True)
+    # ---- size ladder 2: planted point with a duality certificate
+    if q:
+        for N in (12, 33, 65, 130):
+            for t in range(2):
+                add("ladder-planted-dual", n=N, minimize=t == 0, tie=(0.0, 0.25)[t], ncfg=4 if N < 100 else 2)
+        for N, tie, xp in ((520, 0.0, 0.15), (600, 0.15, 0.1), (1000, 0.0, 0.08), (1030, 0.15, 0.05)):
+            for mn in (True, False):
+                add("ladder-planted-dual", n=N, minimize=mn, tie=tie, wide=True, xpos=xp, ncfg=3)
+    else:
+        for N in (11, 12, 33, 64, 65, 129, 130, 140, 260):
+            for t in range(6):
+                add("ladder-planted-dual", n=N, minimize=t % 2 == 0, tie=(0.0, 0.25, 0.5)[t % 3] if N <= 140 else (0.0, 0.1)[t % 2],
+                    ncfg=4 if N <= 140 else 2)
+        for N in (500, 512, 520, 600, 1000, 1024, 1030, 1100, 1500, 2050):
+            for t, (tie, xp) in enumerate(((0.0, 0.08), (0.15, 0.05), (0.0, 0.15), (0.15, 0.1), (0.3, 0.12), (0.0, 0.2))):
+                if N > 1100 and xp > 0.08:
+                    continue
+                add("ladder-planted-dual", n=N, minimize=t % 2 == 0, tie=tie, wide=True, xpos=xp, ncfg=3 if xp <= 0.1 else 2)
+    ctx.scope("ladder-planted-dual", instances=sum(1 for u in big if u[0] == "ladder-planted-dual"),
+              sizes_n=sorted({u[1]["n"] for u in big if u[0] == "ladder-planted-dual"}), what=gen_planted_dual.__doc__,
+              oracle="oracles.milp_certs.check_dual_certificate (exact)", seeded=True,
+              note="LP optimum value == MILP optimum here, so these runs are not counted as non-trivial (the LP vertex is "
+                   "often fractional all the same - the optimal face is not a point - and the tree has 2..1000+ nodes)")
+    # ---- long runs: one weight row, meet-in-the-middle oracle
+    for n in ((15, 16, 17, 18) if q else (14, 15, 16, 17, 18, 19, 20)):
+        for t in range(5 if q else 10):
+            add("long-run-single-row", n=n, flavour="exact-weight", ncfg=(2 if t == 0 else 1) if q else 3,
+                history=t == 0 if q else t % 3 == 0)
+    for fl_, ns in (("exact-weight-bounded", (10, 11) if q else (8, 10, 11, 12, 13)),
+                    ("knapsack-correlated", (14, 17) if q else (12, 15, 16, 18, 20, 22, 24)),
+                    ("knapsack-ties", (10, 13) if q else (8, 10, 12, 13, 14, 16)),
+                    ("cover", (16, 20) if q else (12, 15, 16, 18, 20, 22, 24))):
+        for n in ns:
+            for t in range(1 if q else 5):
+                add("long-run-single-row", n=n, flavour=fl_, ncfg=3, history=True)
+    ctx.scope("long-run-single-row", instances=sum(1 for u in big if u[0] == "long-run-single-row"),
+              sizes_n=sorted({u[1]["n"] for u in big if u[0] == "long-run-single-row"}), what=gen_single_row.__doc__,
+              flavours=sorted(set(ROW_FLAVOURS)), oracle="oracles.milp_certs.mitm_row (exact)", seeded=True,
+              note="exact-weight with 16+ binaries: thousands of nodes, 10 000 .. 40 000 simplex pivots per call (see c04_stats "
+                   "long-run-single-row:calls-with-more-than-10000-pivots); history=true: one weight edited in place, solved again")
+    # ---- history mode, small scope
+    L = 8
+    for fam, nq, nt in (("history-general", 750, 16000), ("history-binary", 500, 10000), ("history-fake-binary", 250, 6000)):
+        for t in range(nq if q else nt):
+            hist.append((fam, L, rng.randrange(1 << 30), t % (40 if q else 100) == 0))
+    ctx.scope("history-mode", sequences=len(hist), calls_per_sequence=L,
+              what="sequences of solve_milp calls in one process on the SAME c / A (same row lists) / b / integers / warm-start "
+                   "objects; between calls 1-2 random IN-PLACE edits (A[i][j]=v, b[i]=v, c[j]=v, append/pop/replace/scale a row, "
+                   "swap two columns, add/remove an integer index, flip the direction, nothing at all); every call with a "
+                   "random option tuple and warm-start kind, judged against the exact oracle for the model as it is at that "
+                   "call; the last call of every 40th (thorough: 100th) sequence is repeated in a fresh interpreter and "
+                   "compared", start_instances="random-general / random-binary / random-fake-binary generators",
+              oracle="oracles.milp_exact (explicit bound rows are kept bounds, so the box stays complete)", seeded=True)
+    return big, hist
+
+
 def run(ctx: Ctx):
     from vf.prove import prove
     prove(ctx, ["specs.lp_milp"], "C04")  # deductive part (specs/lp_milp.py)
     from vf.pool import pmap
     use_repo()
     units = build_units(ctx)
-    # chunk so that results come back in modest pieces; order is fixed => deterministic
+    big, hist = build_round2(ctx)
+    # order: the long single calls first (largest n first), then history sequences, then the small-scope chunks; one item
+    # per task so that the pool balances itself; the order is fixed => deterministic
     rng = random.Random(ctx.seed + 1)
     rng.shuffle(units)
     size = 12
-    chunks = [units[i:i + size] for i in range(0, len(units), size)]
+    cost = {"ladder-blocks": 1.0, "ladder-planted-dual": 0.5, "long-run-single-row": 8.0}
+    big.sort(key=lambda u: -(u[1]["n"] * cost[u[0]] * (0.1 if u[1].get("wide") else 1)))
+    items = [("big", u) for u in big]
+    items += [("history", hist[i:i + 10]) for i in range(0, len(hist), 10)]
+    items += [("small", units[i:i + size]) for i in range(0, len(units), size)]
     stat = {}
     noverdict = []
-    for res in pmap(work_chunk, chunks, chunksize=1):
+    per_ob = {}
+    for res in pmap(work_item, items, chunksize=1):
         for o in res:
             ctx.count(o["n"], o["keys"], [o["sample"]] if o["sample"] else [])
             for ob, cs, det in o["viol"]:
+                fam = cs.get("family", "")
+                per_ob[(ob, fam)] = per_ob.get((ob, fam), 0) + 1
+                if "history" in cs and per_ob[(ob, fam)] > 3:
+                    stat["violations-not-listed(more than 3 per obligation and family)"] = \
+                        stat.get("violations-not-listed(more than 3 per obligation and family)", 0) + 1
+                    continue
                 ctx.violation(ob, cs, det)
             for k, v in o["stat"].items():
                 stat[k] = stat.get(k, 0) + v
@@ -782,11 +1573,21 @@ def run(ctx: Ctx):
     ctx.rule = ("case = (instance, minimize|maximize, configuration); every case is one call of solve_milp judged against "
                 "the exact oracle. non-trivial = integrality matters for that instance and direction: the exact LP "
                 "relaxation optimum differs from the exact MILP optimum, or the relaxation is feasible/unbounded while "
-                "the MILP is infeasible/bounded; distinct = different (c, A, b, integers, direction, configuration)")
+                "the MILP is infeasible/bounded; distinct = different (c, A, b, integers, direction, configuration). "
+                "Round-2 families: a call of a history sequence is a case of its own (distinct = sequence seed + position; "
+                "non-trivial by the same relaxation rule on the model as it is at that call); ladder-blocks calls are non-trivial "
+                "when the instance has a block with an integrality gap (or an integer-infeasible, LP-feasible block); "
+                "long-run-single-row calls when the exact LP relaxation optimum differs from the meet-in-the-middle optimum; "
+                "ladder-planted-dual calls are never counted as non-trivial (LP optimum = MILP optimum by construction)")
     ctx.assumptions += [
         "float tolerance: rows/sign/integrality within 1e-6*(1+max|data|) (rows additionally scaled by 1+|row|_1); "
         "OPTIMAL compared within gap_tol*max(1,|obj|,|OPT|) + that tolerance; integer data with entries <= 6",
-        "bounded scope: n <= 5 variables, <= 5 user rows, box U <= 3 (explicit rows), see scopes",
+        "bounded scope: n <= 5 variables, <= 5 user rows, box U <= 3 (explicit rows), see scopes; beyond it only the "
+        "structured families of round 2 (block-diagonal, planted with duality certificate, one weight row), where the "
+        "verdict is certified without enumeration; float tolerance there: 2e-6 flat (rows scaled by 1+|row|_1)",
+        "history mode and the ladder / long-run families hand the solver the caller's own objects (no copies) and reuse "
+        "them over several calls; a time-out (CPU-time budget per call: 60 s small scope, 150 s / 1200 s ladder quick / "
+        "thorough) is recorded under no-verdict:* and never judged in the ladder / long-run families",
         "a raise or a time-out of solve_milp is not judged by the property except through verdict-invariance "
         "(reported under c04_stats no-verdict:*)",
         "with an open box (family random-open-box, outside the property's 'bounded MILPs', kept for the UNBOUNDED clause) "
@@ -795,15 +1596,96 @@ def run(ctx: Ctx):
         "configurations; the code reports budget exhaustion without incumbent as INFEASIBLE - see c04_stats "
         "outside-quantifier:* and the examples in the notes)",
     ]
-    ctx.trusted += ["oracles/milp_exact.py (box enumeration; every witness re-verified exactly)",
+    ctx.trusted += ["oracles/milp_certs.py (meet-in-the-middle enumeration of one-row programs; block composition; LP-duality "
+                    "certificate check; witnesses re-verified exactly against the rows handed to the solver)",
+                    "oracles/milp_exact.py (box enumeration; every witness re-verified exactly)",
                     "oracles/lp_exact.py (Fraction simplex, every answer validated by its certificate)"]
 
 
 # =============================================================================================== replay
+def _parse_expected(e):
+    return {"status": e["status"], "relax": e.get("relax"), "value": None if e.get("value") is None else Fraction(e["value"]),
+            "x": None if e.get("x") is None else [Fraction(v) for v in e["x"]]}
+
+
+def replay_history(cs) -> int:
+    """Re-run a recorded sequence: the objects are built once from the first state, every later state is produced by
+    applying the recorded edits IN PLACE, and every call gets those same objects."""
+    from oracles.milp_certs import sparse_feasible, to_dense, to_sparse
+    from oracles.milp_exact import solve as exact
+    S = None
+    exp = None
+    ws_obj = []
+    bad = []
+    gots = []
+    for k, st in enumerate(cs["history"]):
+        state = st.get("state")
+        if k == 0:
+            A = to_dense(state["rows"], state["n"]) if "rows" in state else [list(r) for r in state["A"]]
+            S = {"c": list(state["c"]), "A": A, "b": list(state["b"]), "integers": list(state["integers"]),
+                 "minimize": state["minimize"]}
+            if state.get("tau"):
+                S["tau"] = state["tau"]
+        for op in st["ops"]:
+            apply_op(op, S)
+        if state is not None:
+            rec_A = to_dense(state["rows"], state["n"]) if "rows" in state else state["A"]
+            if (S["c"], S["A"], S["b"], S["integers"], S["minimize"]) != \
+                    (state["c"], rec_A, state["b"], state["integers"], state["minimize"]):
+                print(f"call {k + 1}: replayed edits do not reproduce the recorded model - replay not faithful")
+                return 3
+            if "expected" in state:
+                exp = _parse_expected(state["expected"])
+                if exp["status"] == "optimal":
+                    ok = sparse_feasible(exp["x"], to_sparse(S["A"]), S["b"], S["integers"]) and \
+                        sum(Fraction(a) * q for a, q in zip(S["c"], exp["x"])) == exp["value"]
+                    print(f"call {k + 1}: certified point re-verified exactly against the rows: {ok}; value {exp['value']}")
+        mn = S["minimize"]
+        snap = dict(_snap(S), **({"tau": S["tau"]} if "tau" in S else {}))
+        orc = _orc_of(exp, mn) if exp is not None else exact(snap["c"], snap["A"], snap["b"], snap["integers"])
+        d = orc["dir"][mn]
+        cfg = st["cfg"]
+        if cfg.get("warm_start") is not None:
+            ws_obj[:] = cfg["warm_start"]
+        kind, res = call_solver(S, mn, cfg, share=True, ws_obj=ws_obj, timeout=BIG_TIMEOUT[False])
+        n = len(S["c"])
+        head = f"call {k + 1} ({'min' if mn else 'max'}, n={n}, rows={len(S['b'])}, edits before it: {st['ops']})"
+        if n <= 8:
+            head += f" c={S['c']} A={S['A']} b={S['b']} integers={S['integers']}"
+        if kind != "result":
+            print(f"{head}: {kind}: {res}")
+            gots.append((kind, res, None, False))
+            continue
+        viols, stn, cx = contract(snap, mn, cfg, res, orc)
+        gots.append(("result", stn, cx, False))
+        print(f"{head}: status={stn} objective={res.objective} nodes={res.iterations} pivots={res.evaluations}; "
+              f"oracle: {d['status']} {d['value']}   cfg={ {q: v for q, v in cfg.items() if q != 'warm_start'} }")
+        for ob, det in viols:
+            print("   VIOLATES", ob, "::", det[:400])
+            bad.append(ob)
+    if "baseline_call" in cs and len(gots) > cs["failing_call"]:
+        i, j = cs["baseline_call"], cs["failing_call"]
+        msg = invariance(S, S["minimize"], cs["history"][j]["cfg"], gots[j], cs["history"][i]["cfg"], gots[i])
+        if msg:
+            print("   VIOLATES", P + "ensures:verdict-invariant", "::", msg)
+            bad.append("verdict-invariant")
+    if cs.get("compare_with_fresh_process"):
+        fr = _fresh_process(_snap(S), S["minimize"], cs["history"][-1]["cfg"])
+        msg = compare_with_fresh(S, cs["history"][-1]["cfg"], gots[-1], fr)
+        print("fresh process:", fr)
+        if msg:
+            print("   VIOLATES", P + "ensures:same-verdict-as-in-a-fresh-process", "::", msg)
+            bad.append("fresh")
+    print("replay:", "still violated" if bad else "no violation")
+    return 1 if bad else 0
+
+
 def replay(rec) -> int:
     use_repo()
     from oracles.milp_exact import solve as exact
     cs = rec["case"]
+    if "history" in cs:
+        return replay_history(cs)
     inst = {"c": cs["c"], "A": cs["A"], "b": cs["b"], "integers": cs["integers"]}
     orc = exact(inst["c"], inst["A"], inst["b"], inst["integers"])
     mn = cs["minimize"]
@@ -834,3 +1716,9 @@ def replay(rec) -> int:
             bad.append(P + "ensures:verdict-invariant")
     print("replay:", "still violated" if bad else "no violation")
     return 1 if bad else 0
+
+
+if __name__ == "__main__":
+    import sys
+    if "--fresh" in sys.argv:
+        _fresh_main()
